@@ -43,6 +43,9 @@ Section Missing.
   Lemma round_shape_cases s : (exists z, round_shape OP s = Ok z) \/ round_shape OP s = Err.
   Proof. unfold round_shape. destruct (_ && _); eauto. Qed.
 
+  Lemma round_shape_kw_cases s r d : (exists z, round_shape_kw OP s r d = Ok z) \/ round_shape_kw OP s r d = Err.
+  Proof. unfold round_shape_kw. destruct (_ || _); [now right|apply round_shape_cases]. Qed.
+
   Ltac step :=
     cbn [bind fst snd has orb andb] in *;
     match goal with
@@ -53,6 +56,7 @@ Section Missing.
     | |- context[validate2 OP ?v ?n] => destruct (validate2_cases v n) as [-> | ->]
     | |- context[validate4 OP ?v ?n] => destruct (validate4_cases v n) as [-> | ->]
     | |- context[validate_shape OP ?v ?n] => destruct (validate_shape_cases v n) as [-> | ->]
+    | |- context[round_shape_kw OP ?s ?r ?d] => destruct (round_shape_kw_cases s r d) as [[? ->] | ->]
     | |- context[round_shape OP ?s] => destruct (round_shape_cases s) as [[? ->] | ->]
     | |- context[if ?b then Err else _] => destruct b
     end.
